@@ -121,7 +121,7 @@ Definition check_or_set_dimensionality (it : item) (value : spv) : res item :=
           match fst (get_attr it di) with
           | SPNone => OK (put_value it di (spv_ints dim))
           | d => match int_list_of d with
-                 | Some dl => if list_eqb dl dim then OK it else Err ERuntime
+                 | Some dl => if list_eqb dl dim || (negb (nonnil dim) && list_eqb dl [1]) then OK it else Err ERuntime   (* scalar values have dimension [1] *)
                  | None => Err ERuntime
                  end
           end
@@ -251,6 +251,7 @@ Definition setup_channel (st : bstate) (c : nat) (d : chdata) : res bstate :=
   let di := aidx T_CHANNEL n_dimension in let ei := aidx T_CHANNEL n_element_limit in
   let dim := match cd_shape d with [] => [1] | s => s end in
   let udim := fst (get_attr it di) in
+  if negb (Nat.eqb (i_ty it) T_CHANNEL) then Err EOther else     (* FRAME.CHANNELS only accepts channel objects *)
   do it1 <- (match int_list_of udim with
              | Some dl => if list_eqb dl dim then OK it
                           else if spv_truthy udim then Err ERuntime else OK (put_value it di (spv_ints dim))
